@@ -1160,17 +1160,6 @@ class Tensor:
             else:
                 parent_var = None
 
-        for v in input_vars:
-            if isinstance(v, Tensor):
-                # tensor's graph has been cleared, but its base lingers
-                if v._base is not None and v._creator is None:
-                    v._base = None
-
-                if base is None:
-                    # non-view ops clear grads
-                    v._grad = None
-                    v._view_grad = None
-
         if base is not None:
             # we need to be able to replay view-ops for doing in-place operations
             # on graphs with views
@@ -1185,18 +1174,37 @@ class Tensor:
             else:
                 constant = True
 
+        # Create the output tensor before any input is touched: this can raise
+        # (e.g. a bad `constant`, or a non-real output dtype), and a failed
+        # operation must not leave a trace on its inputs
+        try:
+            tensor_out = cls(
+                op_out,
+                constant=constant,
+                copy=False,
+                _creator=f,
+                _base=base,
+            )
+        except Exception as e:
+            if _mem.MEM_GUARD:
+                _mem.release_writeability_lock_on_op(_uniques_bases_then_arrs)
+            raise e
+
+        for v in input_vars:
+            if isinstance(v, Tensor):
+                # tensor's graph has been cleared, but its base lingers
+                if v._base is not None and v._creator is None:
+                    v._base = None
+
+                if base is None:
+                    # non-view ops clear grads
+                    v._grad = None
+                    v._view_grad = None
+
         # record that a variable participated in that op
         ref_f = ReferenceType(f)  # type: WeakRef[Operation]
         for var in tensor_vars:
             var._ops.add(ref_f)
-
-        tensor_out = cls(
-            op_out,
-            constant=constant,
-            copy=False,
-            _creator=f,
-            _base=base,
-        )
 
         if parent_var is not None:
             parent_var._view_children.append(tensor_out)
